@@ -9,6 +9,7 @@ pub mod c18;
 pub mod c34;
 pub mod c35;
 pub mod conv;
+pub mod oracle;
 pub mod perp;
 pub mod pure;
 pub mod smoke;
@@ -29,8 +30,11 @@ pub const REGISTRY: &[(&str, fn(&mut Ctx))] = &[
     ("C16", c16::run),
     ("C17", c17::run),
     ("C18", c18::run),
+    ("C24", oracle::run_c24),
+    ("C25", oracle::run_c25),
     ("C26", conv::run_c26),
     ("C27", conv::run_c27),
+    ("C29", oracle::run_c29),
     ("C34", c34::run),
     ("C35", c35::run),
     ("C43", conv::run_c43),
